@@ -4,7 +4,7 @@
    freshly generated GenLfu.v: a change of the source that changes the meaning of a translated
    method breaks a lemma here. *)
 Require Import Capp.Base Capp.Spec Capp.Rr Capp.Lfuda Capp.LfudaFacts Capp.RrLit Capp.LruLit Capp.LfudaLit
-               Capp.LfudaLitFacts Capp.LfuLitFacts Capp.GenPrims CappGen.GenLfu.
+               Capp.LfudaLitFacts Capp.LfuLitFacts Capp.GenPrims Capp.Conc Capp.GenConc CappGen.GenLfu.
 From Coq Require Import Strings.String Lia.
 
 Section LfuBridge.
@@ -378,7 +378,23 @@ Section LfuBridge.
       exists l', run_res g_step (g_init cap) h = Ok (l', snd (run lfu_step (lfu_init cap) h)) /\
                  fu_rep l' (fst (run lfu_step (lfu_init cap) h)).
   Proof. intros cap h Hc Hn. rewrite g_init_ok. apply generated_lfu_no_UB_on_any_history; auto. Qed.
+
+  (* ---- C06 on the translated program: in every execution of the lock-level machine (Conc.v, Section Lin: invoke,
+     acquire, body = one call of the generated program, release, return) every call returns what the mid-level
+     model returns when it runs the calls in the order of their critical sections ---- *)
+  Theorem generated_lfu_lock_level_executions_return_model_results : forall cap ex st,
+      1 <= cap ->
+      mexec _ _ _ (tstep g_step RUnsupported) (minit _ _ _ (g_init cap)) ex st ->
+      let l := lin _ _ _ (tstep g_step RUnsupported) (g_init cap) (fun _ => None) ex in
+      (fun h => Forall (fun e => (0 <= e_now e)%Z) h) (map (fun c => snd (fst c)) l) ->
+      map snd l = (fun h => snd (run lfu_step (lfu_init cap) h)) (map (fun c => snd (fst c)) l).
+  Proof.
+    intros cap ex st Hc Hex.
+    refine (executions_have_the_results_of_the_model g_step RUnsupported (fun h => Forall (fun e => (0 <= e_now e)%Z) h) (fun h => snd (run lfu_step (lfu_init cap) h)) (g_init cap) _ ex st Hex).
+    intros h HP. destruct (generated_lfu_constructed_no_UB_on_any_history cap h Hc HP) as (l' & D & _). eauto.
+  Qed.
 End LfuBridge.
 
 Print Assumptions generated_lfu_no_UB_on_any_history.
 Print Assumptions generated_lfu_constructed_no_UB_on_any_history.
+Print Assumptions generated_lfu_lock_level_executions_return_model_results.
